@@ -107,3 +107,39 @@ def parseFieldWith (accept : Text → Bool) (s : PState) (tag : Text) : Except M
   | .ok (c, s') => if accept c then .ok (c, s') else .error (.invalid tag c)
 
 end SwiftMT
+
+namespace SwiftMT
+
+/-! `parse_variant_field::<T>` / `parse_optional_variant_field::<T>` with the option enum abstracted:
+`pwv content letter` = `T::parse_with_variant` (None = rejected), `ser` = `to_swift_string`.  After reading
+`:<base><letter>:` the parser checks that the value is written back under that same tag. -/
+
+def letterArg (v : Text) : Option Text := if v.isEmpty then none else some v
+
+def parseVariantWith {α : Type} (pwv : Text → Option Text → Option α) (ser : α → Text) (s : PState) (base : Text) :
+    Except MErr (α × PState) :=
+  match detectVariant s base with
+  | .error e => .error (.parser e)
+  | .ok v =>
+    match extractField s (base ++ v) false with
+    | .error e => .error (.parser e)
+    | .ok (c, s') =>
+      match pwv c (letterArg v) with
+      | none => .error (.invalid (base ++ v) c)
+      | some a =>
+        if (marker (base ++ v)).isPrefixOf (ser a) then .ok (a, s') else .error (.invalid (base ++ v) c)
+
+def parseOptionalVariantWith {α : Type} (pwv : Text → Option Text → Option α) (ser : α → Text) (s : PState)
+    (base : Text) : Except MErr (Option α × PState) :=
+  match detectVariantOptional s base with
+  | none => .ok (none, s)
+  | some v =>
+    match extractField s (base ++ v) true with
+    | .error _ => .ok (none, s)
+    | .ok (c, s') =>
+      match pwv c (letterArg v) with
+      | none => .error (.invalid (base ++ v) c)
+      | some a =>
+        if (marker (base ++ v)).isPrefixOf (ser a) then .ok (some a, s') else .error (.invalid (base ++ v) c)
+
+end SwiftMT
